@@ -45,6 +45,11 @@ def symexec_function(args):
             out["span"] = list(mod.span(fdef))
             out["sha1"] = mod.sha1(fdef)
             obs = eng.verify(key)
+            inl = sorted(getattr(eng, "inlined_src", ()))
+            if inl:
+                import hashlib
+                out["inlined"] = [x.split(":")[0] for x in inl]
+                out["sha1"] = hashlib.sha1((out["sha1"] + "|" + "|".join(inl)).encode()).hexdigest()
             out["stats"] = dict(eng.stats)
             out["assumed"] = sorted(eng.assumed)
             out["calls"] = sorted(eng.calls_used)
